@@ -9,6 +9,7 @@ import (
 	"net/http/httptest"
 	"strings"
 	"sync"
+	"sync/atomic"
 	"time"
 	"verif/harness/props/c03b"
 
@@ -508,6 +509,47 @@ func c03(c *Ctx) {
 				return -1
 			}
 			return w.Code
+		}
+		// a deterministic interleaving: request X (other host, ticket of host A) is parked inside NewSettings by an
+		// application-supplied option while request V (host A) is handled completely, then X continues
+		{
+			var park int32
+			parked, release := make(chan struct{}), make(chan struct{})
+			hook := func(*service.Settings) {
+				if atomic.CompareAndSwapInt32(&park, 1, 0) {
+					close(parked)
+					<-release
+				}
+			}
+			opts2 := make([]func(*service.Settings), 0, 8)
+			opts2 = append(opts2, service.MaxClockSkew(skew), service.DecodePAC(false), hook)
+			h2 := spnego.SPNEGOKRB5Authenticate(inner, s.kt, opts2...)
+			serve2 := func(remote, hdr string) int {
+				req := httptest.NewRequest("GET", "http://host.test.gokrb5/", nil)
+				req.RemoteAddr = remote
+				req.Header.Set("Authorization", hdr)
+				w := httptest.NewRecorder()
+				if p, _ := guard(func() { h2.ServeHTTP(w, req) }); p {
+					return -1
+				}
+				return w.Code
+			}
+			hx, hv := header(), header()
+			atomic.StoreInt32(&park, 1)
+			xc := make(chan int, 1)
+			go func() { xc <- serve2("10.0.0.66:40000", hx) }()
+			select {
+			case <-parked:
+				cv := serve2("10.0.0.1:40000", hv)
+				close(release)
+				cx := <-xc
+				c.Check(cv == 200, "a request from the host the ticket is bound to is served, whatever else the wrapper is serving", "shared-wrapper:own-host-refused", "parked interleaving", nil)
+				c.Check(cx == 401, "a request from another host than the ticket's is refused, whatever else the wrapper is serving", "shared-wrapper:other-host-served", fmt.Sprintf("parked interleaving: status %d", cx), nil)
+				c.Count("shared-wrapper:parked-interleaving")
+			case <-time.After(5 * time.Second):
+				close(release)
+				c.Notes = append(c.Notes, "shared-wrapper: the option hook was not reached")
+			}
 		}
 		// sequentially first: A is served, B is refused
 		c.Check(serve("10.0.0.1:40000", header()) == 200, "a request from the host the ticket is bound to is served", "shared-wrapper:own-host-refused", "", nil)
